@@ -26,16 +26,26 @@ if [ "${SKIP_CONFIRM:-0}" != 1 ]; then
   if (eval "$CMD") >"$OUT/demo_seeded.log" 2>&1; then res "demo-with-change: pass (bad seed)"; else res "demo-with-change: fail (as required)"; fi
   cd /; git -C /repo worktree remove --force "$WT"
 fi
-[ -n "$(git -C /repo status --porcelain)" ] && { res "/repo not clean, refusing"; exit 2; }
-git -C /repo apply "$SD/patch.diff" || { res "apply to /repo failed"; exit 2; }
-trap 'git -C /repo checkout -- . ' EXIT
+if [ "${IN_REPO:-0}" = 1 ]; then
+  # the way the checks are used: the change applied to /repo itself, undone straight afterwards
+  [ -n "$(git -C /repo status --porcelain)" ] && { res "/repo not clean, refusing"; exit 2; }
+  git -C /repo apply "$SD/patch.diff" || { res "apply to /repo failed"; exit 2; }
+  trap 'git -C /repo checkout -- . ' EXIT
+  TARGET=/repo; BDIR=$VERIF/build
+else
+  # parallel triage: the change applied to a scratch worktree, the checks pointed at it
+  TARGET=/tmp/sr-$NAME; BDIR=/tmp/sb-$NAME
+  git -C /repo worktree remove --force "$TARGET" >/dev/null 2>&1
+  git -C /repo worktree add --detach "$TARGET" HEAD >/dev/null 2>&1 || { res "worktree failed"; exit 2; }
+  git -C "$TARGET" apply "$SD/patch.diff" || { res "apply failed"; exit 2; }
+  mkdir -p "$BDIR"
+  trap 'git -C /repo worktree remove --force "$TARGET"; rm -rf "$BDIR"' EXIT
+fi
 cd "$VERIF"
 for c in $CHECKS; do
   t0=$(date +%s)
-  VERIF_EVIDENCE_DIR=$OUT VERIF_REPLAYS_DIR=$OUT/replays ./check $c ${TIER:+--tier $TIER} >"$OUT/check_$c.out" 2>"$OUT/check_$c.err"; rc=$?
+  VERIF_REPO=$TARGET VERIF_BUILD=$BDIR VERIF_SYMGO=$VERIF/build/symgo VERIF_EVIDENCE_DIR=$OUT VERIF_REPLAYS_DIR=$OUT/replays ./check $c ${TIER:+--tier $TIER} >"$OUT/check_$c.out" 2>"$OUT/check_$c.err"; rc=$?
   res "check $c: exit=$rc $(grep -c '^VIOLATION' "$OUT/check_$c.out") violation line(s) $(( $(date +%s)-t0 )) s"
   grep '^VIOLATION' "$OUT/check_$c.out" | head -3 | tee -a "$OUT/summary.txt"
   [ $rc = 3 ] && grep INCONCLUSIVE "$OUT/check_$c.err" | head -3 | tee -a "$OUT/summary.txt"
 done
-git -C /repo checkout -- .
-trap - EXIT
